@@ -19,6 +19,7 @@ import random
 import engine
 import scen
 import s_peak_shaving
+import s_peak_load_window as s_plw
 from c10 import us, f, r_battery, r_cost, compare as _compare
 
 engine.use_repo()
@@ -32,7 +33,7 @@ RULE = ("scenarios from the grammar in harness/scen.py for strategy distributed 
         "call and every strategy step of every run is one model evaluation; non-trivial = a step in which a station or "
         "battery carries power; distinct = distinct (seed, index)")
 ASSUMPTIONS = ["model vs implementation: floats compared by value (+0.0 == -0.0), no tolerance",
-               "sub-strategies greedy / balanced / peak_shaving are modelled; peak_load_window, balanced_market, flex_window, "
+               "sub-strategies greedy / balanced / peak_shaving / peak_load_window are modelled; balanced_market, flex_window, "
                "schedule, distributed as sub-strategy are not (the harness raises NotImplementedError, never a silent pass); "
                "a sub-strategy whose `interval` option differs from the parent's is not modelled",
                "world_state.future_events: the arrival vehicle events always (the ones step reads itself); every event when a "
@@ -128,7 +129,7 @@ def render_init_result(strat):
 def r_sub(strat, sub):
     name = type(sub).__name__
     rule = RULES.get(name)
-    if rule is None and name != "PeakShaving":
+    if rule is None and name not in ("PeakShaving", "PeakLoadWindow"):
         raise NotImplementedError("sub-strategy %s is not modelled" % name)
     if sub.interval != strat.interval:
         raise NotImplementedError("sub-strategy interval differs from the parent's")
@@ -140,7 +141,21 @@ def r_sub(strat, sub):
                   str(s_peak_shaving.FUEL)]
     else:
         parts.append("N")
+    if name == "PeakLoadWindow":
+        parts += ["S", str(s_plw.inst(sub.start_time)), str(s_plw.inst(sub.stop_time)), str(s_plw.BISECT_FUEL),
+                  s_plw.r_windows(sub.time_windows), s_plw.r_table(sub.events)]
+    else:
+        parts.append("N")
     return parts
+
+
+def sub_peaks(sub):
+    """`self.peak_power` of a PeakLoadWindow sub-strategy"""
+    return dict(sub.peak_power) if type(sub).__name__ == "PeakLoadWindow" else {}
+
+
+def r_kv(d):
+    return " ".join([str(len(d))] + ["%s %s" % (k, f(v)) for k, v in d.items()])
 
 
 def sub_events(sub):
@@ -180,6 +195,23 @@ def render_world(strat):
     needs_future = any(type(x).__name__ == "PeakShaving" and not x.perfect_foresight
                        for x in (strat.strat_opps, strat.strat_deps))
     parts.append(r_evlist(list(ws.future_events) if needs_future else []))
+    # what a PeakLoadWindow sub-strategy reads beyond the shared world: the clock as a datetime, connector attributes
+    # (operator, voltage level, window flag), charging-curve powers and `schedule` of the vehicles, its peak_power
+    parts.append(s_plw.w_dt(strat.current_time))
+    if any(type(x).__name__ == "PeakLoadWindow" for x in (strat.strat_opps, strat.strat_deps)):
+        parts.append(str(len(ws.grid_connectors)))
+        for gid, gc in ws.grid_connectors.items():
+            parts += [gid, "~None" if gc.grid_operator is None else s_plw.tok(gc.grid_operator),
+                      "N" if gc.voltage_level is None else "S " + s_plw.tok(gc.voltage_level),
+                      "N" if gc.window is None else "S %d" % int(bool(gc.window))]
+        parts.append(str(len(ws.vehicles)))
+        for vid, v in ws.vehicles.items():
+            pts = v.vehicle_type.charging_curve.points
+            sched = getattr(v, "schedule", None)
+            parts += [vid, str(len(pts))] + [f(p[1]) for p in pts] + ["N" if sched is None else "S " + f(sched)]
+    else:
+        parts += ["0", "0"]
+    parts += [r_kv(sub_peaks(strat.strat_opps)), r_kv(sub_peaks(strat.strat_deps))]
     return " ".join(parts)
 
 
@@ -193,7 +225,8 @@ def render_result(strat, cmds):
             + " | " + " ".join(f(b.soc) for b in ws.batteries.values())
             + " | " + r_ids({g: list(d.keys()) for g, d in strat.connected.items()})
             + " | " + " ".join(f(cs.current_power) for cs in strat.virtual_cs.values())
-            + " | %d %d" % (len(sub_events(strat.strat_opps)), len(sub_events(strat.strat_deps))))
+            + " | %d %d" % (len(sub_events(strat.strat_opps)), len(sub_events(strat.strat_deps)))
+            + " | " + r_kv(sub_peaks(strat.strat_opps)) + " | " + r_kv(sub_peaks(strat.strat_deps)))
 
 
 @contextlib.contextmanager
@@ -251,6 +284,13 @@ def tie(full=None):
                 if any(abs(res["commands"].get(c, 0)) > 1e-5 for c, cs in ws.charging_stations.items()
                        if cs.parent == gid):
                     box["stats"].add("ps_%s_charges" % ent[0])
+            if type(ent[1]).__name__ == "PeakLoadWindow" and (occupied or gid in self.gc_battery):
+                box["stats"].add("plw_%s%s" % (ent[0], "" if occupied else "_vacant_battery"))
+                if any(abs(res["commands"].get(c, 0)) > 1e-5 for c, cs in ws.charging_stations.items()
+                       if cs.parent == gid):
+                    box["stats"].add("plw_%s_charges" % ent[0])
+                if gc.window:
+                    box["stats"].add("plw_inside_window")
             if gid in self.gc_battery:
                 box["stats"].add("%s_battery_%s" % (ent[0], "occupied" if occupied else "vacant"))
                 if len(self.gc_battery[gid]) > 1:
@@ -272,14 +312,17 @@ def tie(full=None):
     try:
         # a PeakShaving sub-strategy is tied on its own as well (its `__init__` through `init_peak_shaving`, its
         # `step()` on every virtual world through `step_peak_shaving`)
-        with s_peak_shaving.tie(full, with_oracle=False) as ps:
+        # … and so is a PeakLoadWindow sub-strategy (`init_peak_load_window`, `step_peak_load_window`)
+        with s_peak_shaving.tie(full, with_oracle=False) as ps, s_plw.tie(full or {}) as pl:
             try:
                 yield box
             finally:
-                box["lines"] += ps["lines"]
-                box["impl"] += ps["impl"]
+                box["lines"] += ps["lines"] + pl["lines"]
+                box["impl"] += ps["impl"] + pl["impl"]
                 if ps["lines"]:
                     box["stats"].add("peak_shaving_substrategy")
+                if pl["lines"]:
+                    box["stats"].add("peak_load_window_substrategy")
     finally:
         cls.__init__, cls.step = orig_init, orig_step
 
@@ -317,6 +360,29 @@ def ps_options(o, seed, i):
             o["strategy_options_" + k] = so
 
 
+def plw_options(full, seed, i):
+    """a sixth of the scenarios delegate to peak_load_window on one or both sides (needs the option time_windows)"""
+    if i % 6 != 4:
+        return
+    r3 = random.Random("S_DISTRIBUTED:plw:%s:%s" % (seed, i))
+    o = full["options"]
+    o["time_windows"] = "@TIME_WINDOWS"
+    full["meta"]["time_windows"] = {"default_grid_operator": {
+        "s1": {"start": "2020-01-01", "end": "2020-12-31", "windows": {
+            lvl: [[r3.choice(["08:15", "11:00"]), r3.choice(["12:30", "13:00"])],
+                  [r3.choice(["16:30", "17:45"]), r3.choice(["19:00", "20:00"])],
+                  ["23:00", "01:00"]] for lvl in ["HV", "MV", "LV"]}}}}
+    variant = r3.choice(["full", "full", "full", "full", "level_without_windows", "season_over"])
+    s1 = full["meta"]["time_windows"]["default_grid_operator"]["s1"]
+    if variant == "level_without_windows":
+        del s1["windows"][r3.choice(["HV", "MV", "LV"])]
+    elif variant == "season_over":
+        s1["end"] = "2020-01-%02d" % r3.choice([5, 7, 11])
+    for k in r3.choice([["deps"], ["opps"], ["deps", "opps"]]):
+        o["strategy_" + k] = "peak_load_window"
+        o.pop("strategy_options_" + k, None)
+
+
 def gen_full(seed, i):
     rng = random.Random("S_DISTRIBUTED:%s:%s" % (seed, i))
     feats = {}
@@ -328,6 +394,7 @@ def gen_full(seed, i):
                              features=feats, max_steps=36)
     full["options"].update(sub_options(rng))
     ps_options(full["options"], seed, i)
+    plw_options(full, seed, i)
     if i % 16 == 7:
         # a tolerance that vehicle SoCs of the grammar hit exactly (desired 1.0, SoC 0.5): boundary of `> self.EPS`
         full["options"]["EPS"] = 0.5
